@@ -2994,18 +2994,15 @@ func (t *Topic) replyDelMsg(sess *Session, asUid types.Uid, asChan bool, msg *Cl
 	del := msg.Del
 
 	pud := t.perUser[asUid]
-	if !(pud.modeGiven & pud.modeWant).IsDeleter() {
-		// User must have an R permission: if the user cannot read messages, he has
-		// no business of deleting them.
-		if !(pud.modeGiven & pud.modeWant).IsReader() {
-			sess.queueOut(ErrPermissionDeniedReply(msg, now))
-			return errors.New("del.msg: permission denied")
-		}
-
-		// User has just the R permission, cannot hard-delete messages, silently
-		// switching to soft-deleting
-		del.Hard = false
+	// Hard-deleting requires the D permission: without it silently switching to soft-deleting.
+	hard := del.Hard && (pud.modeGiven & pud.modeWant).IsDeleter()
+	// Soft-deleting requires the R permission: if the user cannot read messages, he has
+	// no business of hiding them.
+	if !hard && !(pud.modeGiven & pud.modeWant).IsReader() {
+		sess.queueOut(ErrPermissionDeniedReply(msg, now))
+		return errors.New("del.msg: permission denied")
 	}
+	del.Hard = hard
 
 	var err error
 	var ranges []types.Range
